@@ -9,6 +9,7 @@ from __future__ import annotations
 import base64
 import glob
 import os
+import re
 
 from .. import runner
 from ..gen import ctrl, mutate, triggers
@@ -67,7 +68,7 @@ def cli_case(arg):
         argv = [cmd, "--format", fmt] + (["--parallel"] if par else []) + ["."]
         r = runner.cli(argv, root, timeout=240)
         out.append({"argv": argv, "exit": r.exit, "signal": r["signal"], "timeout": r["timeout"], "traceback": "Traceback (most recent call last)" in r.err,
-                    "swallowed": r["swallowed"], "err": r.err[-300:]})
+                    "swallowed": r["swallowed"], "err": r.err[-1500:]})
     return out
 
 
@@ -114,11 +115,42 @@ def make_cases(ctx, rng):
                 cases.append({"id": "blow:%s:%s:%d" % (lang, kind, d), "name": "bad/blow_%s_%d%s" % (kind, d, ext[lang]), "data": mutate.blowup(lang, kind, d),
                               "mclass": "blowup-%s-%d" % (kind, d), "lang": lang})
         cases.append({"id": "many:%s" % lang, "name": "bad/many%s" % ext[lang], "data": mutate.m_many_functions(b"", rng, lang), "mclass": "many-functions", "lang": lang})
+    # unusual but legitimate tokens (one per offending file)
+    tok_js = ["08", "0089", "0755", "09.5", "1_000", "0b101", "0o17", ".5e-3", "1e400", "0xFFFFFFFFFFFFFFFFFFFFFFFF", "123456789012345678901234567890n", "9" * 5000,
+              "0x" + "f" * 4500, "/[/]+/g.test(a)", "`${a}${`${a}`}`", "a?.b?.[0] ?? 1", "'\\uD800'", "1..toString()", "0.1e-2_0"]
+    tok_py = ["9" * 5000, "0x" + "f" * 4500, "1e400", "0o777", "1_0", "5j", "'\\ud800'", "b'\\xff'", "f'{a!r:>{10}}'", "(y := a)", "...", "1if a else 2", "0_0", "1e-400", "0xDEADBEEF_CAFE",
+              "'\\N{BULLET}'", "u'x'", "rb'\\d'"]
+    tok_rs = ["0xFFFF_FFFF_FFFF_FFFF_FFFF_FFFF_FFFF_FFFFu128", "1e400", "r#\"raw \"quoted\" text\"#", "b\"bytes\\xff\"", "'\\u{10FFFF}'", "0b1111_0000u8", "1_000_000i64", "9" * 300,
+              "0o777", "1.0e-7f64", "b'\\''", "'a", "340282366920938463463374607431768211455"]
+    for lang, toks in (("js", tok_js), ("ts", tok_js), ("py", tok_py), ("rs", tok_rs)):
+        for ti, tok in enumerate(toks):
+            if lang == "py":
+                body = "def tok_fn(a):\n    value = %s\n    if a in (\"x\", %s):\n        return value\n    return check(a, %s)\n" % (tok, tok, tok)
+            elif lang == "rs":
+                body = "fn tok_fn(a: i64) -> i64 {\n    let value = %s;\n    check(a, %s)\n}\n" % (tok, tok)
+            else:
+                body = "function tokFn(a) {\n  const value = %s;\n  if (a === %s) { return value; }\n  return check(a, %s);\n}\n" % (tok, tok, tok)
+            cases.append({"id": "tok:%s:%d" % (lang, ti), "name": "bad/tok%d%s" % (ti, ext[lang]), "data": body.encode("utf-8", "surrogatepass"), "mclass": "token", "lang": lang,
+                          "token": tok[:40]})
     py = sd[0][1]
     for name in ("bad/prog.java", "bad/prog.go", "bad/notes.txt", "bad/noext", "bad/script", "bad/data.json", "bad/x.PY", "bad/weird name (1).py", "bad/.hidden.py"):
         data = (b"#!/usr/bin/env python3\n" + py) if name.endswith("script") else py
         cases.append({"id": "ext:" + name, "name": name, "data": data, "mclass": "unknown-extension", "lang": "py"})
     return cases
+
+
+def raised_key(text):
+    """Mechanism key of an exception that escapes the orchestrator: type + normalised start of its message."""
+    m = re.search(r"(\w+(?:Error|Exception))\W*:?\s*(.*)", ANSI.sub("", text), re.S)
+    if not m:
+        return "raised:unknown"
+    if "surrogates not allowed" in m.group(2):
+        return "raised:%s:surrogates-not-allowed" % m.group(1)
+    words = re.sub(r"['\"].*?['\"]|\d+", "N", m.group(2)).split()[:5]
+    return "raised:%s:%s" % (m.group(1), "-".join(w.strip("().,:;").lower() for w in words if w.strip("().,:;")))
+
+
+ANSI = re.compile(r"\x1b\[[0-9;]*m")
 
 
 def fam(rule):
@@ -175,7 +207,8 @@ def run(ctx):
         ctx.count("mclass:" + case["mclass"].split("-")[0].split("+")[0])
         ctx.nontrivial([case["mclass"], case["lang"]])
         if v["raised"]:
-            ctx.discrepancy("raised:%s:%s" % (v["raised"].split(":")[0], case["mclass"].split("+")[0]), "%s: lint_directory raised %s" % (case["id"], v["raised"]), rep, files)
+            ctx.discrepancy(raised_key(v["raised"]), "%s%s: lint_directory raised %s (the CLI turns this into exit 2 for every command)" % (
+                case["id"], " token %r" % case.get("token") if case.get("token") else "", v["raised"]), rep, files)
             continue
         seen = set()
         for s in v["swallowed"]:
@@ -217,7 +250,9 @@ def run(ctx):
             if r["timeout"] or r["signal"]:
                 ctx.discrepancy("cli-died:%s" % case["mclass"].split("+")[0], "%s: `thailint %s` timeout=%s signal=%s" % (case["id"], " ".join(r["argv"]), r["timeout"], r["signal"]), rep, files)
             elif r["exit"] not in (0, 1):
-                ctx.discrepancy("cli-exit-%s:%s:%s" % (r["exit"], r["argv"][0], case["mclass"].split("+")[0]), "%s: `thailint %s` exit %s: %s" % (case["id"], " ".join(r["argv"]), r["exit"], r["err"][-150:]), rep, files)
+                errs = re.findall(r"(\w+(?:Error|Exception))[^\n]*", ANSI.sub("", r["err"]))
+                key = raised_key(ANSI.sub("", r["err"])[ANSI.sub("", r["err"]).rfind(errs[-1]):]) if errs else "cli-exit-%s:%s" % (r["exit"], case["mclass"].split("+")[0])
+                ctx.discrepancy(key, "%s: `thailint %s` exit %s: %s" % (case["id"], " ".join(r["argv"]), r["exit"], r["err"][-150:]), rep, files)
             elif r["traceback"] and not r["swallowed"]:
                 ctx.discrepancy("cli-traceback:%s" % r["argv"][0], "%s: traceback on stderr: %s" % (case["id"], r["err"][-150:]), rep, files)
     ctx.sample({"case": cases[0]["id"], "offender": cases[0]["name"], "mutators": cases[0]["mclass"], "first_bytes": repr(cases[0]["data"][:80])})
